@@ -8,15 +8,28 @@ import (
 	"fmt"
 	"go/ast"
 	"go/token"
+	"regexp"
 	"strings"
 )
+
+// c23EqualFn: targetEqualsLegacy compares the name, the number of keys and every entry's bytes
+func c23EqualFn(f *File) bool {
+	fd := f.Func("Migrator", "targetEqualsLegacy")
+	if fd == nil {
+		return false
+	}
+	t := strings.Join(strings.Fields(f.Str(fd.Body)), " ")
+	return strings.Contains(t, "index, name, err := reader.LoadIndex()") &&
+		strings.Contains(t, "if err != nil || name != swampName || len(index) != len(entries) { return false }") &&
+		strings.Contains(t, "for _, entry := range entries { data, exists := index[entry.Key] if !exists || !bytes.Equal(data, entry.Data) { return false } } return true")
+}
 
 func init() {
 	Register("C23", Extractor{Import: "Hv.Props.C23", Type: "Hv.C23.Facts", Run: func(fs *Facts) {
 		const mp = "app/core/hydra/swamp/chronicler/v2/migrator/migrator.go"
 		const cp = "app/core/hydra/swamp/chronicler/chronicler.go"
 		names := []string{"dedupeLast", "writeBeforeDelete", "verifyBeforeDelete", "removeOnVerifyFail", "removeOnWriteFail", "removeOnOpenFail",
-			"emptyKeyIsError", "metaErrorAborts", "verifyValues", "refusesExisting", "skipsZeroLength", "nameFromMeta", "v1LoadIteratesMap"}
+			"emptyKeyIsError", "metaErrorAborts", "verifyValues", "refusesExisting", "acceptsEqualTarget", "syncsBeforeDelete", "skipsZeroLength", "nameFromMeta", "v1LoadIteratesMap"}
 		set := map[string]bool{}
 		put := func(n string, t Tri, where string) { fs.Tri(n, t, where); set[n] = true }
 		defer func() {
@@ -40,6 +53,10 @@ func init() {
 			// only statements at the top level of the function body after the `if len(entries) == 0` block
 			for _, st := range fd.Body.List {
 				if ifs, ok := st.(*ast.IfStmt); ok && strings.Contains(f.Str(ifs.Cond), "len(entries) == 0") {
+					continue
+				}
+				// the target-exists block (its own delete step belongs to the already-migrated branch, see below)
+				if ifs, ok := st.(*ast.IfStmt); ok && ifs.Init != nil && strings.Contains(f.Str(ifs.Init), "os.Stat(") && len(f.Calls(ifs, "m.writeV2File")) == 0 {
 					continue
 				}
 				for _, c := range f.Calls(st, "m.writeV2File") {
@@ -72,6 +89,7 @@ func init() {
 			if wr != nil && len(wr.Args) == 3 {
 				target := f.Str(wr.Args[0])
 				guard, other := false, false
+				equal := Unknown
 				var where ast.Node = wr
 				for _, st := range fd.Body.List {
 					if st.Pos() >= wr.Pos() {
@@ -93,18 +111,59 @@ func init() {
 					cond := f.Str(ifs.Cond)
 					k := len(ifs.Body.List)
 					_, returns := ifs.Body.List[k-1].(*ast.ReturnStmt)
-					if (cond == "!errors.Is("+ev+", os.ErrNotExist)" || cond == "!os.IsNotExist("+ev+")") && ifs.Else == nil && returns &&
-						len(f.Calls(ifs.Body, "m.recordFailure")) == 1 && len(f.Calls(ifs.Body, "os.Remove")) == 0 && len(f.Calls(ifs.Body, "m.deleteV1Files")) == 0 {
+					condOk := (cond == "!errors.Is("+ev+", os.ErrNotExist)" || cond == "!os.IsNotExist("+ev+")") && ifs.Else == nil && returns
+					refuseOnly := func(b *ast.BlockStmt) bool {
+						n := len(b.List)
+						if n == 0 {
+							return false
+						}
+						_, r := b.List[n-1].(*ast.ReturnStmt)
+						return r && len(f.Calls(b, "m.recordFailure")) == 1 && len(f.Calls(b, "os.Remove")) == 0 && len(f.Calls(b, "m.deleteV1Files")) == 0 &&
+							len(f.Calls(b, "m.writeV2File")) == 0
+					}
+					switch {
+					case condOk && refuseOnly(ifs.Body):
 						guard, where = true, ifs
-					} else {
+						equal = No
+					case condOk && k >= 3:
+						// `if statErr != nil || !m.targetEqualsLegacy(target, entries, name) { recordFailure; return }`, then the
+						// already-migrated branch: optional DeleteOld step, success counter, return — no write, no remove
+						inner, ok := ifs.Body.List[0].(*ast.IfStmt)
+						wantCond := ev + " != nil || !m.targetEqualsLegacy(" + target + ", " + f.Str(wr.Args[1]) + ", " + f.Str(wr.Args[2]) + ")"
+						rest := &ast.BlockStmt{List: ifs.Body.List[1:]}
+						delGuarded := true
+						for _, c := range f.Calls(rest, "m.deleteV1Files") {
+							_ = c
+						}
+						for _, st2 := range rest.List {
+							if len(f.Calls(st2, "m.deleteV1Files")) > 0 {
+								i2, ok2 := st2.(*ast.IfStmt)
+								if !ok2 || f.Str(i2.Cond) != "m.config.DeleteOld" {
+									delGuarded = false
+								}
+							}
+						}
+						if ok && inner.Init == nil && inner.Else == nil && f.Str(inner.Cond) == wantCond && refuseOnly(inner.Body) &&
+							len(f.Calls(rest, "m.writeV2File")) == 0 && len(f.Calls(rest, "os.Remove")) == 0 && len(f.Calls(rest, "m.recordFailure")) == 0 &&
+							len(f.Calls(rest, "m.deleteV1Files")) == 1 && delGuarded && f.Contains(rest, "&m.result.SuccessfulSwamps") && c23EqualFn(f) {
+							guard, where = true, ifs
+							equal = Yes
+						} else {
+							other = true
+						}
+					default:
 						other = true
 					}
 				}
 				switch {
 				case guard && !other:
 					put("refusesExisting", Yes, at(where))
+					if equal != Unknown {
+						put("acceptsEqualTarget", equal, at(where))
+					}
 				case !guard && !other:
 					put("refusesExisting", No, at(where))
+					put("acceptsEqualTarget", No, at(where))
 				}
 			}
 			// `if m.config.Verify { if err := m.verifyMigration(…); err != nil { os.Remove(hydFilePath) …; return } }`
@@ -190,6 +249,25 @@ func init() {
 			}
 		}
 
+		// --- durability before DeleteOld: FileWriter.Close fsyncs before it reports success, and writeV2File fails on its error
+		if wf, err := Load("app/core/hydra/swamp/chronicler/v2/writer.go"); err == nil {
+			if cd := wf.Func("FileWriter", "Close"); cd != nil {
+				t := strings.Join(strings.Fields(wf.Str(cd.Body)), " ")
+				closeErr := false
+				if wd := f.Func("Migrator", "writeV2File"); wd != nil {
+					wt := strings.Join(strings.Fields(f.Str(wd.Body)), " ")
+					closeErr = strings.Contains(wt, "if err := writer.Close(); err != nil { os.Remove(filePath) return err }")
+				}
+				i, j := strings.Index(t, "if err := fw.file.Sync(); err != nil { fw.file.Close() return err }"), strings.Index(t, "fw.closed = true")
+				switch {
+				case i >= 0 && j > i && closeErr:
+					put("syncsBeforeDelete", Yes, fmt.Sprintf("%s:%d", wf.Path, wf.Line(cd)))
+				case !strings.Contains(t, "Sync()") && closeErr:
+					put("syncsBeforeDelete", No, fmt.Sprintf("%s:%d", wf.Path, wf.Line(cd)))
+				}
+			}
+		}
+
 		// --- loadV1Swamp: `entryMap[entry.Key] = entry` directly in the loop body (last wins),
 		//     or guarded by an existence test (first wins)
 		if fd := f.Func("Migrator", "loadV1Swamp"); fd != nil {
@@ -217,7 +295,7 @@ func init() {
 		//     the branch right after NewFileWriterWithName — which has already created the file when the
 		//     header or the name cannot be written — is a fact of its own (removeOnOpenFail)
 		if fd := f.Func("Migrator", "writeV2File"); fd != nil {
-			okLater, nLater := true, 0
+			okLater, nLater, odd := true, 0, false
 			openRemoves, seenOpen := false, false
 			for i, st := range fd.Body.List {
 				if as, ok := st.(*ast.AssignStmt); ok && f.Contains(as, "NewFileWriterWithName(") && i+1 < len(fd.Body.List) {
@@ -233,12 +311,18 @@ func init() {
 					return true
 				}
 				nLater++
+				if f.Str(ifs.Cond) != "err != nil" || ifs.Else != nil {
+					odd = true // an error branch that is taken only sometimes: not a shape the model knows
+				}
 				if len(f.Calls(ifs.Body, "os.Remove")) == 0 {
 					okLater = false
 				}
+				if n := len(ifs.Body.List); n == 0 || !strings.HasPrefix(f.Str(ifs.Body.List[n-1]), "return err") {
+					odd = true
+				}
 				return true
 			})
-			if nLater >= 2 {
+			if nLater >= 2 && !odd {
 				put("removeOnWriteFail", TriOf(okLater), at(fd))
 			}
 			// the writer itself may clean up
@@ -266,9 +350,13 @@ func init() {
 
 		// --- extractKeyFromTreasure: `if model.Key == "" { return "", errors.New(…) }`
 		if fd := f.Func("Migrator", "extractKeyFromTreasure"); fd != nil {
-			t := No
+			// No only when the key is never tested at all; any other test than the recognised one is unknown
+			t := Unknown
+			if !regexp.MustCompile(`(model\.Key\s*(==|!=)|len\(model\.Key\))`).MatchString(f.Str(fd.Body)) {
+				t = No
+			}
 			for _, st := range fd.Body.List {
-				if ifs, ok := st.(*ast.IfStmt); ok && f.Str(ifs.Cond) == `model.Key == ""` && strings.Contains(f.Str(ifs.Body), "return \"\", errors.New") {
+				if ifs, ok := st.(*ast.IfStmt); ok && f.Str(ifs.Cond) == `model.Key == ""` && ifs.Else == nil && strings.Contains(f.Str(ifs.Body), "return \"\", errors.New") {
 					t = Yes
 				}
 			}
@@ -288,7 +376,10 @@ func init() {
 
 		// --- parseV1Segments: `if length == 0 { continue }`
 		if fd := f.Func("Migrator", "parseV1Segments"); fd != nil {
-			t, seenRead := No, false
+			t, seenRead := Unknown, false
+			if !regexp.MustCompile(`length\s*(==|<=|<|!=|>)\s*[01]\b`).MatchString(f.Str(fd.Body)) {
+				t = No // the length is never compared with zero
+			}
 			ast.Inspect(fd.Body, func(x ast.Node) bool {
 				if c, ok := x.(*ast.CallExpr); ok && f.Str(c.Fun) == "reader.ReadUint32" {
 					seenRead = true
